@@ -337,7 +337,8 @@ type vf6Output struct {
 	final     int64 // last stream offset the source will have produced
 	proxy     *vf6Chan
 	incr      func() usync.WaitChannel // closed once the input's log writer phase has begun
-	patience  *atomic.Int64            // ms to wait for something that normally takes < 1 ms; shrinks after each miss
+	patience  *atomic.Int64            // hard limit (ms) of a wait on an explicit condition that normally holds within a millisecond
+	missed    *atomic.Bool             // a wait hit the limit: the attempt is repeated, its outcome is not used
 	mu        sync.Mutex
 	spIds     [][]string
 	setRunIds []string
@@ -422,11 +423,7 @@ func (o *vf6Output) Send(ctx context.Context, reader ChannelReader) error {
 		close(done)
 	}()
 	wait := func() time.Duration { return time.Duration(o.patience.Load()) * time.Millisecond }
-	miss := func() {
-		if v := o.patience.Load(); v > 100 {
-			o.patience.Store(v / 2)
-		}
-	}
+	miss := func() { o.missed.Store(true) }
 	select {
 	case <-done:
 	case <-time.After(wait()):
@@ -676,11 +673,12 @@ type vf6Viol struct {
 	rp           map[string]interface{}
 }
 type vf6Sink struct {
-	ops     [][]string
-	counts  []string
-	dist    []string
-	viols   []vf6Viol
-	aborted bool
+	ops      [][]string
+	counts   []string
+	dist     []string
+	viols    []vf6Viol
+	aborted  bool
+	abortWhy string
 }
 
 func (b *vf6Sink) Op(op string, lines ...string) {
@@ -734,9 +732,51 @@ type vf6H struct {
 	inCfg  config.RedisConfig
 	slowMs int64
 	fault  string // fault injected into the bookkeeping calls of the next round ("" = none)
-	// patience (ms) for waits that normally end within a millisecond; halves
-	// after every miss so that a broken build does not stall the run
-	patience atomic.Int64
+	// Waits are on explicit conditions (reader delivered, writer phase begun,
+	// everything stored, position stored). `patience` is only their hard limit:
+	// an attempt in which a wait hit the limit is discarded and the case is
+	// repeated from scratch (a stalled goroutine on a loaded machine must never
+	// become compared output). Only when the repeats hit the limit too the
+	// outcome is taken as the code's behaviour (a broken build), and after three
+	// such cases the limit is lowered so that a broken build does not take hours.
+	patience    atomic.Int64
+	missed      atomic.Bool
+	lastAttempt bool
+	confirmed   int
+}
+
+// begin starts an attempt of a case; again decides after it whether the case is repeated.
+func (h *vf6H) begin(attempt int) {
+	h.missed.Store(false)
+	h.lastAttempt = attempt >= 1
+	h.sink = &vf6Sink{}
+}
+
+func (h *vf6H) again(attempt int) bool {
+	s := h.sink
+	if h.missed.Load() {
+		if attempt < 1 {
+			// a wait hit its hard limit: stalled harness or broken build - the attempt is not used
+			h.s.Count("stalled_attempts_repeated")
+			return true
+		}
+		// the repeat hit the limit too: taken as the behaviour of the code under test
+		h.s.Count("wait_limit_hit_on_every_attempt")
+		h.confirmed++
+		if h.confirmed >= 3 {
+			h.patience.Store(1500)
+		}
+		return false
+	}
+	if s.aborted && attempt < 3 {
+		// the run ended before anything was delivered; nothing was delivered, so the
+		// property is not at stake: the case is repeated (a deterministic abort survives
+		// the repeats and is reported as run-aborted). Counted by cause: the store's
+		// snapshot reader losing the race against the writer's rename is C05's.
+		h.s.Count("aborted_attempt_" + s.abortWhy)
+		return true
+	}
+	return false
 }
 
 func (h *vf6H) newChannel(c *vf6Case, dir string) Channel {
@@ -833,7 +873,7 @@ func (h *vf6H) round(c *vf6Case, inner Channel, replay map[string]interface{}, r
 
 	// ---- the real input against double, proxy and recording output
 	proxy := &vf6Chan{inner: inner}
-	out := &vf6Output{sp: c.sp, final: final, proxy: proxy, patience: &h.patience}
+	out := &vf6Output{sp: c.sp, final: final, proxy: proxy, patience: &h.patience, missed: &h.missed}
 	switch h.fault {
 	case "reset1":
 		out.failReset = 1
@@ -1016,7 +1056,7 @@ func (h *vf6H) round(c *vf6Case, inner Channel, replay map[string]interface{}, r
 		bline = fmt.Sprintf("%s bytes kind=none", tag)
 	}
 	if out.readErr != "" {
-		bline += " !read=" + strings.ReplaceAll(out.readErr, " ", "_")
+		s.Count("send_error_" + strings.SplitN(out.readErr, ":", 2)[0])
 	}
 	lines := []string{qline, mline, ioline, aline, bline}
 	if !c.wf() {
@@ -1220,6 +1260,11 @@ func (h *vf6H) round(c *vf6Case, inner Channel, replay map[string]interface{}, r
 		}
 	default:
 		s.aborted = true
+		s.abortWhy = "other"
+		if len(proxy.wr) > 0 && strings.HasPrefix(proxy.wr[0], "rdb:") && len(proxy.rdErr) > 0 &&
+			(strings.Contains(proxy.rdErr[0], "no such file") || strings.Contains(proxy.rdErr[0], "file does not exist")) {
+			s.abortWhy = "store_rdbreader_rename_race"
+		}
 		s.Violate("run-aborted", fmt.Sprintf("nothing delivered: err=%v writer=%v readerErr=%v", runErr, proxy.wr, proxy.rdErr), rp(""))
 	}
 	if !full && len(psyncs) == 1 {
@@ -1257,10 +1302,10 @@ func (h *vf6H) round(c *vf6Case, inner Channel, replay map[string]interface{}, r
 							s.Violate("cache-bytes", fmt.Sprintf("cache [%d,%d) under %s differs from hist(id1) (err=%v)", from, cr, arid, e), rp(""))
 						}
 					case <-time.After(time.Duration(h.patience.Load()) * time.Millisecond):
-						if v := h.patience.Load(); v > 100 {
-							h.patience.Store(v / 2)
+						h.missed.Store(true)
+						if h.lastAttempt {
+							s.Violate("cache-bytes", "cache read-back did not deliver the cached range (confirmed on repeated attempts)", rp(""))
 						}
-						s.Violate("cache-bytes", "cache read-back timed out", rp(""))
 					}
 					wc.Close(nil)
 					rdr.Close()
@@ -1344,6 +1389,7 @@ type vf6RealOut struct {
 	realSend bool
 	tg       *vfdoubles.Target
 	patience *atomic.Int64
+	missed   *atomic.Bool
 }
 
 // storedOffset reads the position the output currently holds for run id `id`
@@ -1379,11 +1425,7 @@ func (o *vf6RealOut) sendReal(ctx context.Context, reader ChannelReader) error {
 	}
 	rec.mu.Unlock()
 	wait := func() time.Duration { return time.Duration(o.patience.Load()) * time.Millisecond }
-	miss := func() {
-		if v := o.patience.Load(); v > 100 {
-			o.patience.Store(v / 2)
-		}
-	}
+	miss := func() { o.missed.Store(true) }
 	var err error
 	if !reader.IsAof() {
 		if o.failSnapshot {
@@ -1620,6 +1662,99 @@ func vf6ParseWindow(l string) (*vf6Window, error) {
 		}
 	}
 	return wd, nil
+}
+
+// gcLoop: the collector is ON (MaxSize > 0, small segments). The cache holds a
+// snapshot at `left` and more log than fits; the target has nothing stored. The
+// cached snapshot is replayed (branch 4); the next connection, with (id,left)
+// stored, must deliver the log from `left` on - or, when the cache no longer
+// holds those bytes, must not offer that snapshot in the first place. A cache
+// that keeps offering the snapshot while having dropped the log behind it makes
+// every connection replay the snapshot again: it is never followed by the stream.
+func (h *vf6H) gcLoop(backend string, r *vfutil.Rand, tmp string) {
+	s := h.s
+	id := vf6HexId(r)
+	left, size := int64(r.Range(100, 2000)), int64(r.Range(4, 24))
+	maxSize, logSize := int64(r.Range(48, 96)), int64(r.Range(8, 24))
+	n := maxSize + int64(r.Range(16, 80)) // more log than fits beside the snapshot
+	w := &vf6World{id1: id, id2: vf6ZeroId, switchOff: -2, sb: 1, s1: uint64(r.Range(1, 99999)), s2: 2, so: 3}
+	h.nCase++
+	dir := filepath.Join(tmp, fmt.Sprintf("g%d", h.nCase))
+	os.MkdirAll(dir, 0o777)
+	defer os.RemoveAll(dir)
+	var ch Channel
+	if backend == "m" {
+		ch = NewMemoryChannel(MemoryConf{InputId: "vf", MaxSize: maxSize, LogSize: logSize})
+	} else {
+		ch = NewStoreChannel(StorerConf{InputId: "vf", Dir: dir, MaxSize: maxSize, LogSize: logSize})
+	}
+	defer ch.Close()
+	gc := func() {
+		if sc, ok := ch.(*StoreChannel); ok {
+			sc.storer.VerifGcLog()
+		}
+	}
+	c := &vf6Case{backend: backend, cRun: id, tokId: id, hasRdb: true, rdbLeft: left, rdbSize: size, hasAof: true, aofL: left, aofR: left + n}
+	c.src.id1, c.src.id2, c.src.switchOff = id, vf6ZeroId, -2
+	c.s1 = w.s1
+	if err := h.populate(c, ch, w); err != nil {
+		s.Count("gcloop_populate_failed")
+		return
+	}
+	gc()
+	rl, rs := ch.GetRdb(id)
+	gl, gr := ch.GetOffsetRange(id)
+	state := fmt.Sprintf("backend=%s maxSize=%d logSize=%d snapshot=(%d,%d) log written=[%d,%d) -> GetRdb=(%d,%d) range=[%d,%d]", backend, maxSize, logSize, left, size, left, left+n, rl, rs, gl, gr)
+	s.Count("gcloop_" + backend)
+	if rl >= 0 && gl > rl {
+		s.Count("gcloop_snapshot_offered_without_its_log_" + backend)
+	}
+	sp := StartPoint{RunId: "?", Offset: -1}
+	master := left + n
+	var hist []string
+	for round := 0; round < 4; round++ {
+		k := int64(r.Range(4, 20))
+		src := &vf6Source{id1: id, id2: vf6ZeroId, switchOff: -2, backlog: true, first: 1, blen: master, master: master, snapLen: size, capaId: true, k: k, w: w}
+		h.ln.cur.Store(src)
+		h.missed.Store(false)
+		proxy := &vf6Chan{inner: ch}
+		out := &vf6Output{sp: sp, final: master + k, proxy: proxy, patience: &h.patience, missed: &h.missed}
+		ri := NewRedisInput(h.inCfg)
+		ri.SetOutput(out)
+		ri.SetChannel(proxy)
+		out.incr = func() usync.WaitChannel { return ri.StateNotify(SyncStateFullSynced) }
+		runErr := ri.run()
+		gc()
+		if h.missed.Load() {
+			s.Count("gcloop_wait_limit") // e.g. the writer waits for space: not judged
+			return
+		}
+		hist = append(hist, fmt.Sprintf("stored %s:%d -> %s left=%d full=%v err=%v", sp.RunId, sp.Offset, out.kind, out.left, len(proxy.wr) > 0 && strings.HasPrefix(proxy.wr[0], "rdb"), runErr != nil))
+		if !out.sent {
+			s.Count("gcloop_nothing_delivered")
+			return
+		}
+		if out.kind == "rdb" {
+			if sp.RunId != "?" && out.left == sp.Offset && int64(len(out.got)) == out.size {
+				s.Violate("snapshot-replayed-again-at-stored-position",
+					fmt.Sprintf("the snapshot at %d was replayed completely and %s:%d stored; the next connection replays the same snapshot instead of the log from %d (%s)", out.left, sp.RunId, sp.Offset, out.left, state),
+					map[string]interface{}{"scenario": state, "rounds": strings.Join(hist, " | ")})
+				return
+			}
+			if int64(len(out.got)) == out.size {
+				sp = StartPoint{RunId: out.runId, Offset: out.left}
+			}
+		} else {
+			if !bytes.Equal(out.got, w.histRange(id, out.left, master+k)) || out.left != sp.Offset {
+				s.Violate("stream-bytes", fmt.Sprintf("collector on: delivered log from %d differs from the history (%s)", out.left, state),
+					map[string]interface{}{"scenario": state, "rounds": strings.Join(hist, " | ")})
+				return
+			}
+			sp = StartPoint{RunId: out.runId, Offset: master + k}
+			s.Count("gcloop_stream_followed")
+		}
+		master += k
+	}
 }
 
 func vf6NewWait() usync.WaitCloser { return usync.NewWaitCloser(nil) }
@@ -1863,7 +1998,7 @@ func TestVerifC06(t *testing.T) {
 	config.GetSyncerConfig().Output.Replay.UpdateCheckpointTicker = 3 * time.Millisecond
 	config.GetSyncerConfig().Output.Replay.Stats.DisableLog = true
 	h := &vf6H{t: t, s: s, ln: ln, tmp: tmp, inCfg: *config.GetSyncerConfig().Input.Redis}
-	h.patience.Store(5000)
+	h.patience.Store(10000)
 
 	runCase := func(c0 *vf6Case, srcTag string, rounds int) {
 		// follow-up rounds draw from a per-case generator so that a repeated
@@ -1872,7 +2007,7 @@ func TestVerifC06(t *testing.T) {
 		for attempt := 0; ; attempt++ {
 			c := *c0
 			rr := vfutil.NewRand(rseed)
-			h.sink = &vf6Sink{}
+			h.begin(attempt)
 			s := h.sink
 			h.nCase++
 			dir := filepath.Join(tmp, fmt.Sprintf("c%d", h.nCase))
@@ -1908,12 +2043,7 @@ func TestVerifC06(t *testing.T) {
 			}
 			ch.Close()
 			os.RemoveAll(dir)
-			if s.aborted && attempt < 3 {
-				// the run ended before anything was delivered (e.g. the store's
-				// snapshot reader lost the race against the writer's rename);
-				// nothing was delivered, so the property is not at stake: repeat
-				// the case; a deterministic abort survives the repeats and is reported
-				h.s.Count("aborted_attempts_repeated")
+			if h.again(attempt) {
 				continue
 			}
 			s.commit(h)
@@ -1928,7 +2058,7 @@ func TestVerifC06(t *testing.T) {
 	}
 	runWindow := func(wd *vf6Window, srcTag string) {
 		for attempt := 0; ; attempt++ {
-			h.sink = &vf6Sink{}
+			h.begin(attempt)
 			s := h.sink
 			h.nCase++
 			dir := filepath.Join(tmp, fmt.Sprintf("w%d", h.nCase))
@@ -1946,7 +2076,7 @@ func TestVerifC06(t *testing.T) {
 				if err != nil {
 					t.Fatalf("newOutput: %v", err)
 				}
-				return &vf6RealOut{ro: ro, realSend: wd.send == "real", tg: tg, patience: &h.patience}
+				return &vf6RealOut{ro: ro, realSend: wd.send == "real", tg: tg, patience: &h.patience, missed: &h.missed}
 			}
 			unit := int64(1)
 			if wd.send == "real" {
@@ -2001,8 +2131,7 @@ func TestVerifC06(t *testing.T) {
 				}
 				ch.Close()
 				os.RemoveAll(dir)
-				if s.aborted && attempt < 3 {
-					h.s.Count("aborted_attempts_repeated")
+				if h.again(attempt) {
 					continue
 				}
 				s.Count("src_" + srcTag)
@@ -2101,8 +2230,7 @@ func TestVerifC06(t *testing.T) {
 			}
 			ch.Close()
 			os.RemoveAll(dir)
-			if s.aborted && attempt < 3 {
-				h.s.Count("aborted_attempts_repeated")
+			if h.again(attempt) {
 				continue
 			}
 			s.Count("src_" + srcTag)
@@ -2208,6 +2336,11 @@ func TestVerifC06(t *testing.T) {
 			continue
 		}
 		c := vf6GenCase(r)
+		if i%32 == 5 {
+			// collector on (MaxSize > 0): is a replayed cached snapshot followed by the stream?
+			h.gcLoop(vfutil.Pick(r, []string{"m", "m", "d"}), r, tmp)
+			continue
+		}
 		if i%16 == 3 {
 			// fault injection: one bookkeeping call of the round fails
 			h.fault = vfutil.Pick(r, []string{"reset1", "reset2", "reset1", "out_setrunid", "chan_del", "chan_set"})
